@@ -113,6 +113,12 @@ def run_history(run, case):
             pending_count += 1
             if pending_count >= group or variant == 'rtu':
                 flush()
+        elif ev[0] == 'close':
+            flush()
+            try:
+                p.close()              # client-initiated close: the transport reports the loss later
+            except Exception as e:  # noqa
+                escaped.append(e)
         elif ev[0] == 'lose':
             flush()
             try:
@@ -237,6 +243,8 @@ def run(run):
         elif kind == 3:
             pos = r.randint(0, len(events))
             events.insert(pos, ('lose',))
+            if i % 2:
+                events.insert(pos, ('close',))      # close() first, connectionLost afterwards
             events.append(('request',))
             if r.random() < 0.5:
                 events.append(('reply', n))          # a reply arriving after the loss for the late request: must not resurrect it
